@@ -49,9 +49,18 @@ Definition is_peer_restarting (s : grinner) : bool :=
 Definition gr_step (s : grinner) (i : grinput) : grinner * list groutput :=
   match s, i with
   | GLlgrStaling r, GSessionDropped _ _ => (GLlgrStaling r, [])
-  | _, GSessionDropped (Some (fams, rt)) llgr => (GPeerRestarting fams llgr, [GStartTimer rt])
+  | _, GSessionDropped (Some (fams, rt)) llgr =>
+      (* stale_families = gp.families, then every LLGR family not yet contained (fix C10-5) *)
+      let stale := fold_left (fun acc f => if mem f acc then acc else acc ++ [f])
+                             (match llgr with Some lp => map fst lp | None => [] end) fams in
+      (GPeerRestarting stale llgr, [GStartTimer rt])
   | _, GSessionDropped None (Some lp) => (GLlgrStaling (dedup (map fst lp)), [GStartLlgrTimers lp])
-  | GPeerRestarting _ (Some lp), GTimerExpired => (GLlgrStaling (dedup (map fst lp)), [GStartLlgrTimers lp])
+  | GPeerRestarting stale (Some lp), GTimerExpired =>
+      (* stale families without LLGR are deleted now (fix C10-4) *)
+      let remaining := dedup (map fst lp) in
+      let expired := filter (fun f => negb (mem f remaining)) stale in
+      (GLlgrStaling remaining,
+       match expired with [] => [] | _ => [GDeleteStaleRoutes expired] end ++ [GStartLlgrTimers lp])
   | GPeerRestarting stale None, GTimerExpired => (GIdle, [GDeleteStaleRoutes stale])
   | GPeerRestarting stale _, GSessionEstablished gr_families =>
       let gr_set := dedup gr_families in
@@ -60,10 +69,10 @@ Definition gr_step (s : grinner) (i : grinput) : grinner * list groutput :=
       (match gr_set with [] => GIdle | _ => GPeerReconnected gr_set false end, outs)
   | GLlgrStaling remaining, GSessionEstablished gr_families =>
       let gr_set := dedup gr_families in
-      match gr_set with
-      | [] => (GIdle, GStopLlgrTimers :: match remaining with [] => [] | _ => [GDeleteLlgrStaleRoutes remaining] end)
-      | _ => (GPeerReconnected gr_set true, [GStopLlgrTimers])
-      end
+      (* staling families that are not re-negotiated are purged at once (fix C10-3) *)
+      let dropped := filter (fun f => negb (mem f gr_set)) remaining in
+      (match gr_set with [] => GIdle | _ => GPeerReconnected gr_set true end,
+       GStopLlgrTimers :: match dropped with [] => [] | _ => [GDeleteLlgrStaleRoutes dropped] end)
   | GLlgrStaling remaining, GLlgrTimerExpired f =>
       let r := fremove f remaining in
       (match r with [] => GIdle | _ => GLlgrStaling r end, [GDeleteLlgrStaleRoutes [f]])
@@ -103,8 +112,9 @@ Definition rib_restale (rib : list route) (fams : list fam) : list route :=
   map (fun r => if in_fams fams r then set_marks r true (r_llgr r) else r) rib.
 Definition rib_drop_stale (rib : list route) (fams : list fam) : list route :=
   filter (fun r => negb (in_fams fams r && r_stale r)) rib.
+(* drop_llgr_stale selects by the mark of the Source (fix C10-6) *)
 Definition rib_drop_llgr_stale (rib : list route) (fams : list fam) : list route :=
-  filter (fun r => negb (in_fams fams r && is_llgr_stale r)) rib.
+  filter (fun r => negb (in_fams fams r && r_llgr r)) rib.
 (* TableShard::mark_llgr_stale = restale_llgr then drop_no_llgr *)
 Definition rib_mark_llgr (rib : list route) (fams : list fam) : list route :=
   filter (fun r => negb (in_fams fams r && r_no_llgr r))
@@ -243,12 +253,8 @@ Definition h_step (h : hstate) (e : hevent) : hstate :=
   | HDown r =>
       match h_sess h with
       | Some s =>
-          (* session_loop: families dropped / marked are computed from what was negotiated,
-             before the reason is looked at *)
-          let gr_fams := match s_gr s with Some (l, _, _) => l | None => [] end in
-          let llgr_fams := match s_llgr s with Some l => map fst l | None => [] end in
-          let drop_fams := filter (fun f => negb (mem f gr_fams) && negb (mem f llgr_fams)) (s_fams s) in
-          let rib1 := rib_restale (rib_drop (h_rib h) drop_fams) gr_fams in
+          (* session_loop (fix C10-2): eligibility, including admin-down, is decided first;
+             the families kept and marked stale are derived from the result *)
           let gr' := match s_gr s with
                      | Some (l, rt, nbit) => if gr_applies r nbit then Some (l, rt) else None
                      | None => None
@@ -260,6 +266,11 @@ Definition h_step (h : hstate) (e : hevent) : hstate :=
                        end in
           let gr'' := if h_admin_down h then None else gr' in
           let llgr'' := if h_admin_down h then None else llgr' in
+          let gr_fams := match gr'' with Some (l, _) => l | None => [] end in
+          let llgr_fams := match llgr'' with Some l => map fst l | None => [] end in
+          let drop_fams := filter (fun f => negb (mem f gr_fams) && negb (mem f llgr_fams)) (s_fams s) in
+          (* every kept family is marked stale (fix C10-5) *)
+          let rib1 := rib_restale (rib_drop (h_rib h) drop_fams) (gr_fams ++ llgr_fams) in
           let h1 := {| h_gr := h_gr h; h_rtimer := h_rtimer h; h_ltimers := h_ltimers h; h_rib := rib1;
                        h_sess := None; h_gen := h_gen h; h_admin_down := h_admin_down h |} in
           apply_disconnect h1 gr'' llgr''
